@@ -14,6 +14,8 @@ class RefExporter:
         self.blocks_written = 0
         self.outputs = [[]]              # per output: list of blocks
         self.out_preamble = [None]       # number of bps in that output's preamble once written
+        self.out_preamble_bps = [None]   # their contents at that moment (parameters can be edited in place later)
+        self.block_bp = dict(self.bps[0])    # the copy of its parameters the block being filled holds
         self.clear()
 
     def clear(self):
@@ -22,7 +24,7 @@ class RefExporter:
 
     def params(self):
         d = {"max": 10000, "qrh": G.ALL_QRH, "sigh": G.ALL_SIGH, "rrh": 3, "odh": 3, "tps": 1000000}
-        d.update(self.bps[self.cur_pi])
+        d.update(self.block_bp)
         return d
 
     def counts(self):
@@ -37,6 +39,7 @@ class RefExporter:
         if len(self.qrs) + len(self.aecs) + len(self.mms) > 0:
             if self.blocks_written == 0:
                 self.out_preamble[-1] = len(self.bps)
+                self.out_preamble_bps[-1] = [dict(b) for b in self.bps]
             self.outputs[-1].append({"pi": self.cur_pi, "st": self.stats, "qrs": list(self.qrs), "aecs": dict(self.aecs),
                                      "mms": list(self.mms), "qr_ids": list(self.qr_ids), "mm_ids": list(self.mm_ids),
                                      "st_id": self.stats_id})
@@ -44,6 +47,7 @@ class RefExporter:
             wrote = True
         self.clear()
         self.cur_pi = self.active
+        self.block_bp = dict(self.bps[self.active])
         return wrote
 
     def q(self, r, st, rid=None):
@@ -82,12 +86,17 @@ class RefExporter:
         w = w or self.blocks_written > 0          # the closing break is counted in the return value
         self.outputs.append([])
         self.out_preamble.append(None)
+        self.out_preamble_bps.append(None)
         self.blocks_written = 0
         return w
 
     def add_bp(self, bp):
         self.bps.append(dict(bp))
         return len(self.bps) - 1
+
+    def edit_hints(self, h):
+        """in-place edit through get_active_block_parameters_ref(): seen by the block at its next reset, by a preamble when written"""
+        self.bps[self.active].update(h)
 
     def set_active(self, i):
         if i >= len(self.bps):
@@ -141,6 +150,7 @@ def make_session(fp, bps, ops, target="fd", compress="n", end_flush=True, destro
         d = {"max": 10000, "odh": 3}; d.update(b)
         return "%d:%d:%d" % (d["max"], 1 if d["odh"] & 2 else 0, 1 if d["odh"] & 1 else 0)
     ab = [",".join(ps(b) for b in bps)]          # abstract session for the Lean exporter model
+    ab_ok = True                                 # (in-place parameter edits are outside the abstract model)
     aec_ids = {}
     for n, op in enumerate(ops):
         k = op[0]
@@ -165,6 +175,9 @@ def make_session(fp, bps, ops, target="fd", compress="n", end_flush=True, destro
         elif k == "R":
             toks.append("R:%s:%d" % (op[1], 1 if op[2] else 0)); exp.append(("ret", ref.rotate(bool(op[2]))))
             ab.append("R:%d" % (1 if op[2] else 0))
+        elif k == "EH":
+            toks.append("EH:%d:%d:%d:%d" % (op[1]["qrh"], op[1]["sigh"], op[1]["rrh"], op[1]["odh"])); ref.edit_hints(op[1])
+            exp.append(("lit", "ok")); ab_ok = False
         elif k == "AB":
             toks.append(G.bp_token(op[1])); toks.append("AB:%d" % ndefined); ndefined += 1
             exp.append(("lit", "i%d" % ref.add_bp(op[1]))); ab.append("P:" + ps(op[1]))
@@ -172,7 +185,7 @@ def make_session(fp, bps, ops, target="fd", compress="n", end_flush=True, destro
         toks.append("W"); exp.append(("ret", ref.write_block())); ab.append("W")
     if destroy:
         toks.append("D")
-    ref.abstract = "exm " + " ".join(ab)
+    ref.abstract = "exm " + " ".join(ab) if ab_ok else None
     ref.aec_ids = aec_ids
     return "exp " + " ".join(toks), ref, exp
 
